@@ -62,6 +62,8 @@ struct World {
       std::sort(plain_types.begin(), plain_types.end()); plain_types.erase(std::unique(plain_types.begin(), plain_types.end()), plain_types.end());
       fun_types = { &lex.get_function(p0, L.void_type()), &lex.get_function(p1, L.int_type()), &lex.get_function(p2, L.int_type()),
                     &lex.get_function(p1, L.int_type(), L.true_value()) };
+      {  auto& xc = lex.get_transfer(lex.get_linkage(u8"C"), lex.get_calling_convention(u8"")); auto& xs = lex.get_transfer(lex.get_linkage(u8"C++"), lex.get_calling_convention(u8"stdcall"));
+         fun_types.push_back(&lex.get_function(p1, L.int_type(), xc)); fun_types.push_back(&lex.get_function(p1, L.int_type(), xs)); fun_types.push_back(&lex.get_function(p0, L.void_type(), xc)); }
       forall_types = { &lex.get_forall(p1, L.class_type()), &lex.get_forall(p2, L.class_type()), &lex.get_forall(p1, *fun_types[1]) };
       for (auto t : plain_types) alias_inits.push_back(lex.make_literal(*t, u8"0"));       // literal: type() == its first operand
       alias_inits.push_back(cls);                                                          // a type used as an expression: type() == class
